@@ -270,6 +270,36 @@ class PathlibModel:
         return pathlib.Path(*a)
 
 
+class Recorder:
+    """Stand-in for GUI / plotting objects (matplotlib, cartopy): every attribute is a Recorder, every call is recorded
+    as a trace event ('plot', path, args, kwargs) and returns a Recorder."""
+    _pyvc_model_class = True
+
+    def __init__(self, path='obj'):
+        object.__setattr__(self, '_path', path)
+
+    def _getattr(self, name):
+        return Recorder(f'{self._path}.{name}')
+
+    def __getattr__(self, name):
+        if name.startswith('_'):
+            raise AttributeError(name)
+        return Recorder(f'{self._path}.{name}')
+
+    def _setattr(self, name, value):
+        core.ctx().event('plot-set', f'{self._path}.{name}', value)
+
+    def __call__(self, *a, **k):
+        core.ctx().event('plot', self._path, a, k)
+        return Recorder(self._path + '()')
+
+    def _iterate(self):
+        return iter(())
+
+    def __repr__(self):
+        return f'<{self._path}>'
+
+
 class FrameStub(OpaqueValue):
     def __init__(self, what='dataframe'):
         super().__init__(what)
@@ -514,6 +544,8 @@ def make_libs():
         'decimal': __import__('decimal'),
         'tempfile': TempfileModel,
         'pandas': PandasModel,
+        'matplotlib': Recorder('matplotlib'),
+        'cartopy': Recorder('cartopy'),
         'cftime': __import__('pyvc.lib.timelib', fromlist=['x']).CftimeModule,
         'pytz': __import__('pyvc.lib.timelib', fromlist=['x']).PytzModule,
         'netCDF4': __import__('pyvc.lib.timelib', fromlist=['x']).Netcdf4Module,
